@@ -25,6 +25,7 @@ import (
 func TestC18NoDeadlockLndWatcher(t *testing.T) {
 	col := stats.Get("C18.lnd")
 	rapid.Check(t, func(t *rapid.T) {
+		sim.CaseStart(t)
 		w := sim.NewWorld()
 		defer w.Close()
 		a := w.AddNode("alice")
